@@ -166,13 +166,17 @@ def _decode_one(mat):
         # lose goes to the largest entry of the row, so the row stays normalised and its zero pattern unchanged
         for row in probs:
             small = np.isclose(row, 1.0 / d)
-            if small.any() and not small.all():
+            big = ~small & (row > 0)
+            if small.any() and big.any():
                 gain = (1.0 / d - 1e-6) * small.sum()
                 row[small] = 1e-6
-                row[int(np.argmax(np.where(small, -1.0, row)))] += gain
-            elif small.all():
-                row[1:] = 1e-6
-                row[0] = 1.0 - 1e-6 * (len(row) - 1)
+                row[int(np.argmax(np.where(big, row, -1.0)))] += gain
+            elif small.any():
+                # every non-zero entry has weight 1 (e.g. [1, 0, 1, 1] for D = 3): the first of them receives the mass, a ZERO
+                # entry never does - the zero pattern must stay that of the model's matrix
+                idx = np.nonzero(small)[0]
+                row[idx[1:]] = 1e-6
+                row[idx[0]] = 1.0 - 1e-6 * (len(idx) - 1)
     with np.errstate(divide="ignore", invalid="ignore"):
         lp = np.log(probs)
     rec = {"mat": [list(r) for r in mat], "frames": [], "outcome": "ok", "best": [], "confset": [],
